@@ -577,7 +577,17 @@ def oracle_addressed(sim, crash_at):
     for c in sim.callers:
         if c["sent_id"] is None or c["noresp"] or c["outcome"] in (None, "closed"): continue
         t = c["task"]
-        own = next((i for i in range(c["call_at"] + 1, c["done_at"]) if addr.get(i) == t and (crash_at is None or i < crash_at)), None)
+        # its own answer = the first datagram, taken from the transport after the call registered, that the peer sent in answer to
+        # this task's request — or that answers no request at all (an unaddressed stray response) but carries this call's id: the
+        # receive loop may have been waiting in a request handler / a slow answer send while such a stray sat in the transport and
+        # the call registered; to the client it is the response carrying its id (judged by id in `oracle`), not another call's data
+        def mine(i):
+            if crash_at is not None and i >= crash_at or not log[i].startswith("recv "): return False
+            if i in addr: return addr[i] == t
+            h = log[i][5:]
+            r = parse_resp(bytes.fromhex(h) if h != "-" else b"")
+            return bool(r) and r[0] == c["sent_id"]
+        own = next((i for i in range(c["call_at"] + 1, c["done_at"]) if mine(i)), None)
         want = outcome_at(own) if own is not None else None
         if c["outcome"] == want: continue
         src = next((i for i in range(0, c["done_at"]) if i in addr and addr[i] != t and outcome_at(i) == c["outcome"]), None)
